@@ -51,7 +51,7 @@ def loss_out(t, o):
 
 def sets_loss(t, o):
     """... and the session is gone for good (a socket.timeout fails the call but does not end the session)"""
-    return loss_out(t, o) and (o != "timeout" or t == "asynctelnet")
+    return loss_out(t, o) and (o != "timeout" or t == "asynctelnet") and o != "cmdTimeout"
 
 
 def _rows(lines):
@@ -148,12 +148,37 @@ def compute_total(L, emap, after, alive, emapC=None, afterC=None, aliveC=None):
     return total, alive_total, bad
 
 
+def _pat(p, x):
+    return p == "*" or x in p.split("|")
+
+
+def assumed_impossible(L, emap):
+    """out-of-domain rows whose observed act is not allowed = what the hand-written domain hypothesis defines away.
+    Each must match a rule of the REVIEWED file tools/gen/c08_impossible.json; returns [(t, m, o, act, rule index)]"""
+    import json
+    from pathlib import Path
+    from harness.libfakes import short
+    rules = json.load(open(Path(__file__).with_name("c08_impossible.json")))["rules"]
+    rows, unmatched = [], []
+    for (t, m, o), a in sorted(emap.items(), key=lambda kv: key3(L, *kv[0])):
+        if L.in_domain(t, m, o) or act_ok(short(a)):
+            continue
+        idx = next((i for i, r in enumerate(rules) if _pat(r["t"], t) and _pat(r["m"], m) and _pat(r["o"], o)), None)
+        if idx is None:
+            unmatched.append((t, m, o, a))
+        rows.append((t, m, o, a, idx))
+    if unmatched:
+        raise TranslateError("the boundary domain (libfakes.DOMAIN) excludes rows that let a non-allowed act through and that no rule of "
+                             f"tools/gen/c08_impossible.json justifies: {unmatched[:12]}{' ...' if len(unmatched) > 12 else ''}")
+    return rows, rules
+
+
 def observe():
     from harness import libfakes as L
     return (L, L.observe_map(), L.observe_after(), L.observe_alive_after()) + tuple(L.observe_ctrl())
 
 
-NOUT = 17
+NOUT = 20
 
 
 def key3(L, t, m, o):
@@ -217,6 +242,31 @@ def generate(obs=None):
     body += _rows([(f"({keyC3(L, *k)}, {lean_act(v)})", f"{k[1]} [{L.CTRLS[k[0]]}]: after {k[2]}×{k[3]}") for k, v in sorted(allalive, key=lambda kv: keyC3(L, *kv[0]))])
     body += "]\n\n"
     total, alive_total, bad = compute_total(L, emap, after, alive, emapC, afterC, aliveC)
+    # the tables must be complete: every in-domain row observed, none silently missing or empty
+    missing = [(t, m, o) for t in L.TRANSPORTS for m in L.METHODS for o in L.OUTCOMES if L.in_domain(t, m, o) and (t, m, o) not in emap]
+    if missing or len(emap) < 300 or len(after) < 100 or len(alive) < 15 or len(emapC) < 100:
+        raise TranslateError(f"incomplete observation: {len(emap)} rows, {len(after)} post-loss rows, {len(alive)} isalive rows, "
+                             f"{len(emapC)} ctrl rows; in-domain rows never observed: {missing[:10]}")
+    for t in L.TRANSPORTS:
+        for lm in ("read", "write"):
+            for lo in L.DOMAIN[t][lm]:
+                if L.is_loss(t, lm, lo) and not L.post_read(t, lm, lo):
+                    raise TranslateError(f"post_read({t}, {lm}, {lo}) is empty")
+    imp, rules = assumed_impossible(L, emap)
+    body += ("/-- THE DOMAIN HYPOTHESIS MADE VISIBLE: every out-of-domain row of errTbl whose observed act is not allowed (if the library could do\n"
+             "    this, a raw exception would escape).  Each row is justified by a rule class of the reviewed file tools/gen/c08_impossible.json;\n"
+             "    `out_of_domain_bad_rows_listed` (ScrapliProps/C08.lean) decides that there is no other such row. -/\n")
+    body += "def assumedImpossible : List (Transport × Method × Outcome) := [\n"
+    body += _rows([(f"(.{t}, .{m}, .{o})", f"{a.split(':')[-1]}  [rule {i}: {rules[i]['why'][:70]}…]") for t, m, o, a, i in imp])
+    body += "]\n\n"
+    for t in L.TRANSPORTS:
+        for o in L.OUTCOMES:
+            for m in ("read", "write"):
+                if L.in_domain(t, m, o) and L.is_loss(t, m, o) != sets_loss(t, o):
+                    raise TranslateError(f"libfakes.is_loss and gen.sets_loss differ on {(t, m, o)}")
+    body += "/-- generated twins of the hand-written Lean `neverData` / `setsLoss` ([transport][outcome]); `loss_predicates_match` decides equality -/\n"
+    body += "def neverDataTbl : List (List Bool) := [\n" + _rows([("[" + ", ".join("true" if loss_out(t, o) else "false" for o in L.OUTCOMES) + "]", t) for t in L.TRANSPORTS]) + "]\n"
+    body += "def setsLossTbl : List (List Bool) := [\n" + _rows([("[" + ", ".join("true" if sets_loss(t, o) else "false" for o in L.OUTCOMES) + "]", t) for t in L.TRANSPORTS]) + "]\n\n"
     body += "/-- transports whose generated error map is total into the allowed scrapli classes (re-decided in ScrapliProps/C08.lean) -/\n"
     body += "def totalTransports : List Transport := [" + ", ".join("." + t for t in total) + "]\n"
     body += "/-- transports that report isalive() = False after every detectable loss -/\n"
